@@ -61,7 +61,10 @@ class C10(Check):
     def _gen_inst(self, cfg):
         p = self.gen_inst.get(cfg)
         if p is None:
-            p = self.gen_inst[cfg] = W.build(cfg)
+            p = W.build(cfg)
+            if cfg.startswith('gen:'):
+                return p                      # generated grammars are used once: not kept
+            self.gen_inst[cfg] = p
         return p
 
     # ------------------------------------------------------------------ plan
@@ -80,8 +83,10 @@ class C10(Check):
             if r < 0.8 or stateful or 'dyn' in cfg:
                 return ['parse', text, start]
             return ['lex', text, rng.choice([None, k]), rng.random() < 0.3]
-        if r < 0.40:
+        if r < 0.37:
             return ['parse', text, start]
+        if r < 0.40 and e.input_kind == 'str' and not stateful:
+            return ['parse_as', text, start, rng.choice(['slice', 'str'])]
         if r < 0.47:
             return ['parse_on_error', text, start]
         if r < 0.57:
@@ -116,6 +121,8 @@ class C10(Check):
     def gen_plan(self, rng, tier):
         mode = 'threads' if rng.random() < 0.6 else 'history'
         cfg = rng.choice(self.thread_cfgs if mode == 'threads' else self.all_cfgs)
+        if rng.random() < 0.2:
+            cfg = W.gen_config(rng)          # a generated LALR grammar (sim/gramgen.py)
         e = W.ENTRIES[cfg.partition('/')[0]]
         plan = {'config': cfg, 'mode': mode, 'warm': None, 'sched_seed': rng.randrange(1 << 30)}
         if mode == 'threads':
